@@ -2,5 +2,5 @@ import CRProofs.XsdEnum
 namespace CR.C03
 set_option maxRecDepth 100000 in
 set_option maxHeartbeats 1000000 in
-theorem signs_ger_2 : (((gerSigns.drop 120).take 60).all okNV) = true := by decide
+theorem signs_zam_4 : zamSigns.drop 180 = gerSigns.drop 180 := by decide
 end CR.C03
